@@ -4,7 +4,7 @@
    (Generated/Gen_Strop.v: reserved lists incl. Python's keywords+builtins, reserved patterns and
    encoding rules as regex ASTs, prefixes, handler kinds) and with the interpreter's \s \d isspace tables.
    Strings are lists of code points; identifier types are arbitrary strings. *)
-From Verif Require Import StropInst StropThmRe StropThmEnc StropThm StropThmPipe StropThmCache StropThmFull StropThmInst StropKeywords StropThmKw Gen_Pin_strop_methods.
+From Verif Require Import StropInst StropThmRe StropThmEnc StropThm StropThmPipe StropThmCache StropThmFull StropThmInst StropKeywords StropThmKw StropThmTrail Gen_Pin_strop_methods.
 Open Scope N_scope.
 
 (* ---- source tie of the model itself ----
@@ -46,10 +46,10 @@ Print Assumptions filter_id_is_model.
 
 (* the whole property on the observable: whatever the instance, if its name is non-empty a token is returned, and it is a valid
    identifier, not reserved, free of reserved patterns and not a keyword of the language *)
-Theorem filter_id_total_and_sound : cpp_whole_token_premise -> forall l (i : inst) (ty : str), default_filter_id i <> [] -> str_eqb (lower ty) ty_all = false ->
+Theorem filter_id_total_and_sound : forall l (i : inst) (ty : str), default_filter_id i <> [] -> str_eqb (lower ty) ty_all = false ->
   exists t, filter_id l i ty = Ok t /\ valid_ident t = true /\ reserved_lang l t = false /\ pattern_lang l ty t = false
             /\ ~ In t (lang_keywords l).
-Proof. intros P l i ty; exact (filter_id_total_sound_thm l i ty P). Qed.
+Proof. intros l i ty; exact (filter_id_total_sound_thm l i ty cpp_whole_token_premise_holds). Qed.
 Print Assumptions filter_id_total_and_sound.
 
 Example C09_strop_methods_shape_pinned : pin_strop_methods_ok = true.
@@ -66,20 +66,21 @@ Print Assumptions strop_sound_overrides.
 (* ---- TOTALITY: a token is ALWAYS returned -- every non-empty code-point string, every identifier type but `all`.
    The model can fail only where the code raises (no fuel, no engine limit), so this says TokenEncoder.strop cannot raise
    RuntimeError under the shipped configuration.  Side conditions recomputed from the regenerated data (StropThmTotal.v). ---- *)
-(* cpp_whole_token_premise (StropThmInst.v) is `True` in a tree whose _reverified has no whole-token loop (strop_full_check =
-   false).  In a tree WITH the loop (fix of F-STROP-ILLEGAL-AFFIX) it is the named premise "the loop accepts every token
-   containing `__` that the cpp encoder returns" -- proved for c, py and for cpp tokens without `__`; for the rest it rests on
-   the lemma "cpp encoder output never ends in `__`", not proved, supported by the exhaustive model-vs-implementation sweep. *)
-Theorem cpp_premise_trivial_now : strop_full_check = false -> cpp_whole_token_premise.
-Proof. exact cpp_premise_trivial_without_loop. Qed.
+(* The whole-token loop of _reverified (fix of F-STROP-ILLEGAL-AFFIX) accepts every token the cpp encoder returns: the former
+   named premise cpp_whole_token_premise is PROVED (Gen/StropThmTrail.v): exact semantics of the rule _{2,}$ on alphabet strings,
+   closed form of re.sub with it (so the encoder's output never ends in `__`), "does not end in `__`" carried through the
+   keyword / pattern / handler stages (cpp: suffix empty), rules \s+ and [^a-zA-Z0-9_]+ by the look-ahead analysis, ^_{2,} by the
+   anchored dry-run.  The totality theorems below are therefore unconditional for all three languages. *)
+Theorem cpp_whole_token_premise_discharged : cpp_whole_token_premise.
+Proof. exact cpp_whole_token_premise_holds. Qed.
+Print Assumptions cpp_whole_token_premise_discharged.
 
 Theorem strop_total_c : forall (ty s : str), s <> [] -> str_eqb (lower ty) ty_all = false -> exists t, strop_c ty s = Ok t.
 Proof. exact strop_total_c_thm. Qed.
 Print Assumptions strop_total_c.
 
-Theorem strop_total_cpp : cpp_whole_token_premise ->
-  forall (ty s : str), s <> [] -> str_eqb (lower ty) ty_all = false -> exists t, strop_cpp ty s = Ok t.
-Proof. intros P ty s; exact (strop_total_cpp_thm ty s P). Qed.
+Theorem strop_total_cpp : forall (ty s : str), s <> [] -> str_eqb (lower ty) ty_all = false -> exists t, strop_cpp ty s = Ok t.
+Proof. intros ty s; exact (strop_total_cpp_thm ty s cpp_whole_token_premise_holds). Qed.
 Print Assumptions strop_total_cpp.
 
 Theorem strop_total_py : forall (ty s : str), s <> [] -> str_eqb (lower ty) ty_all = false -> exists t, strop_py ty s = Ok t.
@@ -88,16 +89,16 @@ Print Assumptions strop_total_py.
 
 (* every DSDL name -- valid_ident = [A-Za-z_][A-Za-z0-9_]*, NO length bound (pydsdl only removes names from this set) --
    reserved or not, for every language and identifier type: a token comes back and it is legal and unreserved *)
-Theorem strop_dsdl_identifier : cpp_whole_token_premise -> forall l (ty s : str), valid_ident s = true -> str_eqb (lower ty) ty_all = false ->
+Theorem strop_dsdl_identifier : forall l (ty s : str), valid_ident s = true -> str_eqb (lower ty) ty_all = false ->
   exists t, strop_lang l ty s = Ok t /\ valid_ident t = true /\ reserved_lang l t = false /\ pattern_lang l ty t = false.
-Proof. intros P l ty s; exact (strop_dsdl_ident_thm l ty s P). Qed.
+Proof. intros l ty s; exact (strop_dsdl_ident_thm l ty s cpp_whole_token_premise_holds). Qed.
 Print Assumptions strop_dsdl_identifier.
 
 (* the exact outcome set *)
-Theorem strop_outcomes : cpp_whole_token_premise -> forall l (ty s : str), s <> [] ->
+Theorem strop_outcomes : forall l (ty s : str), s <> [] ->
   (str_eqb (lower ty) ty_all = true /\ strop_lang l ty s = ErrValue)
   \/ (str_eqb (lower ty) ty_all = false /\ exists t, strop_lang l ty s = Ok t).
-Proof. intros P l ty s; exact (strop_outcomes_thm l ty s P). Qed.
+Proof. intros l ty s; exact (strop_outcomes_thm l ty s cpp_whole_token_premise_holds). Qed.
 Print Assumptions strop_outcomes.
 
 (* ---- soundness: whatever is returned is a valid, unreserved identifier -- ALL strings, ALL id types ---- *)
@@ -211,9 +212,9 @@ Proof. exact strop_never_keyword_thm. Qed.
 Print Assumptions strop_never_keyword.
 
 (* a keyword used as a name comes back as a DIFFERENT token, which is not a keyword either *)
-Theorem keyword_is_stropped : cpp_whole_token_premise -> forall l (ty w : str), In w (lang_keywords l) -> str_eqb (lower ty) ty_all = false ->
+Theorem keyword_is_stropped : forall l (ty w : str), In w (lang_keywords l) -> str_eqb (lower ty) ty_all = false ->
   exists t, strop_lang l ty w = Ok t /\ t <> w /\ ~ In t (lang_keywords l).
-Proof. intros P l ty w; exact (keyword_is_stropped_thm l ty w P). Qed.
+Proof. intros l ty w; exact (keyword_is_stropped_thm l ty w cpp_whole_token_premise_holds). Qed.
 Print Assumptions keyword_is_stropped.
 
 (* self-test of the committed Python table: the interpreter that runs nunavut has exactly these hard keywords *)
